@@ -37,6 +37,14 @@ def run (ctx):
     n_loops += 1
     _loop(ctx, repo, f, L)
     _caller_contract(ctx, repo, f, L)
+  # decoders never size a read by the length of the buffer they are handed (it may hold further messages)
+  uses_, nd_ = framing.buffer_length_uses(repo)
+  ctx.floor('codec decoders scanned for buffer-length-sized reads', nd_, 60)
+  for f_, x_, txt_ in uses_:
+    ctx.bad('R-UNITS', f_, "the receive buffer's own length only guards reads, it never sizes one (`%s`)" % txt_[:50],
+            "`%s` derives a read size / cursor from len(<buffer>): the decoder is handed the connection's whole receive buffer, so with a further message behind this one it takes that message's bytes as its own - "
+            "decoding consumes beyond the declared length (and the consumed == declared test then rejects a well-formed stream)" % txt_, (f_.module, x_), 'D3')
+  if not uses_: ctx.ok('R-UNITS', 'openflow.libopenflow_01', "the receive buffer's own length only guards reads, it never sizes one", "%d decoders: len(<buffer>) occurs in comparisons only" % nd_, None, 'D3')
   # what a framed message is delivered to must not depend on which read() it arrived in (shared with C09)
   from . import c09
   ofm = repo.mod('openflow.of_01'); con_ = ofm.classes.get('Connection')
@@ -117,6 +125,13 @@ def _loop (ctx, repo, f, L):
     good = iv == (1, 1)
     ctx.ob('R-EFFECT', f, "after a decode the loop continues only with the cursor advanced once", good, "advance count on paths back to the loop head: %s" % (iv,),
            (mod, c), 'D4') if iv is not None else ctx.undecided('R-EFFECT', f, "advance per iteration", "loop head not reachable from decode", (mod, c), 'D4')
+    # ... also when the delivery raises and a handler inside the loop carries on: the message that was handed over is not handed over again
+    ivx = g.interval(lambda x: x in [a[0] for a in L.advance], start=n, stop=L.head, exc=True)
+    if iv == (1, 1) and ivx is not None:
+      ctx.ob('R-EFFECT', f, "the cursor has advanced also on the paths through an exception handler back to the loop head", ivx[0] >= 1,
+             "advance count including handler paths: %s" % (ivx,) if ivx[0] >= 1 else
+             "a path from the decode through an `except` clause back to the loop head advances the cursor %s time(s): when the message handler raises, the same message is decoded and delivered again - forever - and the messages behind it never are" % (ivx[0],),
+             (mod, c), 'D4')
   # ---- D5 delivery -----------------------------------------------------------------------
   dn = [d[0] for d in L.deliver]
   for n, c in L.decode:
